@@ -93,7 +93,9 @@ def corpus():
         names = set(sqlcore.dialect_names())
         for path in sorted(glob.glob(os.path.join(root, "dialects", "test_*.py"))):
             d = os.path.basename(path)[5:-3]
-            if d not in names:
+            if d == "dialect":
+                d = ""  # tests/dialects/test_dialect.py: cross-dialect cases written in the base dialect
+            elif d not in names:
                 continue
             try:
                 src = open(path).read()
